@@ -73,7 +73,7 @@ func verifH_C04_base() {
 
 //verif:harness prop=C04 name=window
 //verif:cases quick skew=0,1,2,10 digits=6,10 keylen=10 codesrc=0,1,2 period=0,30
-//verif:cases thorough skew=0,1,2,5,10 digits=6,10 keylen=20 codesrc=0,1,2 period=0,30,4294967296
+//verif:cases thorough skew=0,1,2,5,10 digits=6,10 keylen=20 codesrc=0,1,2 period=0,3600
 //verif:replace github.com/ja7ad/otp.deriveRFC4226=verifStub_derive
 //verif:replace github.com/ja7ad/otp.DecodeSecret=verifStub_DecodeSecret
 //verif:opt maxpaths=4000 unwind=1000
